@@ -243,6 +243,19 @@ def local_names(fn):
     return out
 
 
+def import_names(fn):
+    """names an import statement inside the function binds (modules and imported objects: called by their dotted name, like module-level imports)"""
+    got = getattr(fn, "_vimports", None)
+    if got is None:
+        got = set()
+        for n in ast.walk(fn):
+            if isinstance(n, (ast.Import, ast.ImportFrom)):
+                for al in n.names:
+                    got.add((al.asname or al.name).split(".")[0])
+        fn._vimports = got
+    return got
+
+
 def plainly_bound(fn, name):
     """is `name` bound in fn only by statements the evaluator carries out in program order (assignments, loop / with / walrus targets, nested defs)
     and not by a parameter, import, global / nonlocal declaration, del, except-as or match capture?"""
@@ -1609,6 +1622,7 @@ class OP4Eval(AutoEvaluator):
                     (isinstance(f.value, ast.Attribute) and f.value.attr in W.class_consts and dotted(f.value.value) in ("self", W.cls))
                 unbound = root is not None and self.fn is not None and root not in self.env and root not in W.pinned and root not in ("self", W.cls) \
                     and root not in W.table and root not in W.consts \
+                    and root not in import_names(self.fn) \
                     and (root in self.locals or (root not in W.module_names and not hasattr(builtins, root)))
                 if name is None or root in self.env or root in W.pinned or root == "self" or pre in self.env or pre in W.pinned or is_const or unbound:
                     recv = self._ev(f.value)
